@@ -6,6 +6,7 @@ import sys
 
 sys.path.insert(0, os.path.dirname(os.path.dirname(os.path.abspath(__file__))))
 from verif_static.core import run_check, AnalysisError, REPO  # noqa
+from verif_static import emit as EM, absint as AI  # noqa
 from verif_static import model as M, cfg as C, makotree as MT, cy2ast  # noqa
 
 TPL = 'pysph/sph/integrator_cython.mako'
@@ -200,46 +201,58 @@ def rule_helper(chk):
     chk.decide(ok, 'timestep-pasted-verbatim', 'helper', node=tc, file=IH, func='get_timestep_code',
                detail_bad='the pasted body is not the unmodified source lines of self.object.one_timestep after its definition line',
                detail_ok="dedent(''.join(lines after the def line))")
-    # stepper call: the stepper's own argument list, method of the destination's own stepper
+    # what the generators emit for a generic integrator with two destinations whose steppers differ
     sl = M.find_func(cls, 'get_stepper_loop')
-    src = U(sl)
-    ok = "self.get_args(dest, method)" in src and "dest + '_stepper'" in src and "method=method" in src and "', '.join(args)" in src
-    rm = [i for i in ast.walk(sl) if isinstance(i, ast.If) and compact(i.test) == "'self'inargs"]
-    chk.decide(ok and bool(rm), 'stepper-call', 'own-arguments', node=sl, file=IH, func='get_stepper_loop',
-               detail_bad='call is not self.<dest>_stepper.<method>(<the method\'s own parameters without self>)', detail_ok='own argument list')
-    ga = M.find_func(cls, 'get_args')
-    src = U(ga)
-    ok = 'self.object.steppers[dest]' in src and 'getattr(stepper, method, None)' in src and 'getfullargspec(meth).args' in src
-    chk.decide(ok, 'stepper-call', 'args-from-destinations-stepper', node=ga, file=IH, func='get_args',
-               detail_bad='arguments are not read from the signature of steppers[dest].<method>', detail_ok='getfullargspec(steppers[dest].method)')
-    si = M.find_func(cls, 'get_stepper_init')
-    fm = [c for c in M.calls(si) if isinstance(c.func, ast.Attribute) and c.func.attr == 'format']
-    ok = False
-    if fm:
-        kw = dict((k.arg, compact(k.value)) for k in fm[0].keywords)
-        tmpl = M.const_str(fm[0].func.value) if isinstance(fm[0].func.value, ast.Constant) else U(fm[0].func.value)
-        ok = kw.get('name') == "dest+'_stepper'" and kw.get('dest') == 'dest' and kw.get('cls') == 'cls_name' and \
-            'self.{name} = {cls}(**steppers["{dest}"].__dict__)' in (tmpl or '')
-    chk.decide(ok, 'stepper-recreation', 'same-key', node=si, file=IH, func='get_stepper_init',
-               detail_bad='compiled stepper is not re-created from the __dict__ of the stepper of the same destination',
-               detail_ok='self.<dest>_stepper = Cls(**steppers["<dest>"].__dict__)')
-    sd = M.find_func(cls, 'get_stepper_defs')
-    chk.decide("dest + '_stepper'" in U(sd) and 'stepper.__class__.__name__' in U(sd), 'stepper-recreation', 'attribute-name', node=sd, file=IH,
-               func='get_stepper_defs', detail_bad='attribute is not declared as <dest>_stepper of the stepper class', detail_ok='<dest>_stepper')
-    py = M.find_func(cls, 'get_py_stage_code')
-    src = U(py)
-    ok = "method = 'py_' + method" in src and 'self.steppers["{dest}"].{method}(dst.array, t, dt)' in src and 'hasattr(stepper, method)' in src
-    chk.decide(ok, 'stepper-call', 'py_stage-hook', node=py, file=IH, func='get_py_stage_code',
-               detail_bad='py_stage hook is not steppers[dest].py_<method>(dst.array, t, dt) when defined', detail_ok='py_<method>(dst.array, t, dt)')
-    wn = M.find_func(cls, 'get_stepper_method_wrapper_names')
-    src = U(wn)
-    ok = "x.startswith('py_stage')" in src and "x[3:]" in src and "x.startswith('stage') or x == 'initialize'" in src and 'sorted(methods)' in src
-    chk.decide(ok, 'stage-wrapper', 'names', node=wn, file=IH, func='get_stepper_method_wrapper_names',
-               detail_bad='wrapped names are not {initialize, stageN, and stageN for py_stageN} over all steppers', detail_ok='initialize/stage*/py_stage*')
-    su = M.find_func(cls, 'get_array_setup')
-    ok = "'%s = dst.%s.data' % (n, n[2:])" in U(su)
-    chk.decide(ok, 'stepper-call', 'pointers-from-destination', node=su, file=IH, func='get_array_setup',
-               detail_bad='stepper arrays are not bound to the destination array', detail_ok='X = dst.X.data')
+    it = EM.interpreter()
+    sa = EM.mock(__class__=EM.mock(__name__='StepA'), initialize=EM.func("def initialize(self, d_idx, d_x, d_x0): pass"),
+                 stage1=EM.func("def stage1(self, d_idx, d_x, d_u, dt): pass"), stage2=EM.func("def stage2(self, d_idx, d_x, d_u, d_au, dt): pass"),
+                 py_stage1=EM.func("def py_stage1(self, dst, t, dt): pass"))
+    sb = EM.mock(__class__=EM.mock(__name__='StepB'), stage1=EM.func("def stage1(self, d_idx, d_rho, d_arho, dt): pass"),
+                 py_stage3=EM.func("def py_stage3(self, dst, t, dt): pass"))
+    # a third destination stepped by another instance of the first class (same class, different parameters)
+    sc = EM.mock(__class__=EM.mock(__name__='StepA'), initialize=sa.attrs['initialize'], stage1=sa.attrs['stage1'], stage2=sa.attrs['stage2'], py_stage1=sa.attrs['py_stage1'])
+    steppers = {'fluid': sa, 'solid': sb, 'gas': sc}
+    h = EM.instance(it, IH, 'IntegratorCythonHelper', object=EM.mock(steppers=steppers))
+    try:
+        got = dict(((d, m), EM.call(it, h, 'get_stepper_loop', d, m)) for d in ('fluid', 'solid') for m in ('initialize', 'stage1', 'stage2'))
+        want = {('fluid', 'initialize'): 'self.fluid_stepper.initialize(d_idx, d_x, d_x0)', ('fluid', 'stage1'): 'self.fluid_stepper.stage1(d_idx, d_x, d_u, dt)',
+                ('fluid', 'stage2'): 'self.fluid_stepper.stage2(d_idx, d_x, d_u, d_au, dt)', ('solid', 'stage1'): 'self.solid_stepper.stage1(d_idx, d_rho, d_arho, dt)'}
+        bad = [(k, v) for k, v in got.items() if (want.get(k) or '') != v and k in want]
+        chk.decide(not bad, 'stepper-call', 'own-arguments', node=sl, file=IH, func='get_stepper_loop',
+                   detail_bad='for two model steppers the generator emits %s: the call must be self.<dest>_stepper.<method>(<that method\'s own parameters without self>)' % bad,
+                   detail_ok='own argument list of the destination\'s own stepper')
+        ga = M.find_func(cls, 'get_args')
+        a1 = EM.call(it, h, 'get_args', 'solid', 'stage1')
+        a2 = EM.call(it, h, 'get_args', 'solid', 'stage2')
+        chk.decide(a1 == ['self', 'd_idx', 'd_rho', 'd_arho', 'dt'] and a2 == [], 'stepper-call', 'args-from-destinations-stepper', node=ga, file=IH, func='get_args',
+                   detail_bad='get_args(solid, stage1 / stage2) = %s / %s: arguments must be read from the signature of steppers[dest].<method>, none when it lacks the method' % (a1, a2),
+                   detail_ok='signature of steppers[dest].<method>; [] when absent')
+        si = M.find_func(cls, 'get_stepper_init')
+        ls = [l.strip() for l in EM.call(it, h, 'get_stepper_init').splitlines() if l.strip()]
+        chk.decide(ls == ['self.fluid_stepper = StepA(**steppers["fluid"].__dict__)', 'self.solid_stepper = StepB(**steppers["solid"].__dict__)',
+                          'self.gas_stepper = StepA(**steppers["gas"].__dict__)'], 'stepper-recreation', 'same-key',
+                   node=si, file=IH, func='get_stepper_init', detail_bad='emits %s: each compiled stepper must be re-created from the __dict__ of the stepper of the same destination' % ls,
+                   detail_ok='self.<dest>_stepper = Cls(**steppers["<dest>"].__dict__)')
+        sd = M.find_func(cls, 'get_stepper_defs')
+        ls = [l.strip() for l in EM.call(it, h, 'get_stepper_defs').splitlines() if l.strip()]
+        chk.decide(ls == ['cdef public StepA fluid_stepper', 'cdef public StepB solid_stepper', 'cdef public StepA gas_stepper'], 'stepper-recreation', 'attribute-name', node=sd, file=IH,
+                   func='get_stepper_defs', detail_bad='emits %s' % ls, detail_ok='cdef public <Cls> <dest>_stepper')
+        py = M.find_func(cls, 'get_py_stage_code')
+        got = [EM.call(it, h, 'get_py_stage_code', d, m) for d, m in (('fluid', 'stage1'), ('fluid', 'stage2'), ('solid', 'stage3'), ('solid', 'stage1'))]
+        chk.decide(got == ['self.steppers["fluid"].py_stage1(dst.array, t, dt)', '', 'self.steppers["solid"].py_stage3(dst.array, t, dt)', ''], 'stepper-call', 'py_stage-hook',
+                   node=py, file=IH, func='get_py_stage_code', detail_bad='emits %s: the hook is steppers[dest].py_<method>(dst.array, t, dt) exactly when that stepper defines it' % got,
+                   detail_ok='py_<method>(dst.array, t, dt) when defined, nothing otherwise')
+        wn = M.find_func(cls, 'get_stepper_method_wrapper_names')
+        names = EM.call(it, h, 'get_stepper_method_wrapper_names')
+        chk.decide(names == ['initialize', 'stage1', 'stage2', 'stage3'], 'stage-wrapper', 'names', node=wn, file=IH, func='get_stepper_method_wrapper_names',
+                   detail_bad='for steppers with {initialize, stage1, stage2, py_stage1} and {stage1, py_stage3} the wrapped names are %s: expected every initialize / stageN / stageN of a py_stageN, '
+                              'over all steppers, sorted' % names, detail_ok='initialize/stage*/py_stage* over all steppers')
+        su = M.find_func(cls, 'get_array_setup')
+        ls = [l.strip() for l in EM.call(it, h, 'get_array_setup', 'fluid', 'stage2').splitlines() if l.strip()]
+        chk.decide(ls == ['d_au = dst.au.data', 'd_u = dst.u.data', 'd_x = dst.x.data'], 'stepper-call', 'pointers-from-destination', node=su, file=IH, func='get_array_setup',
+                   detail_bad='emits %s: every d_* argument of the method must be bound to the destination array' % ls, detail_ok='X = dst.X.data for the method\'s own arrays')
+    except (AI.Unsupported, AI.Raised) as e:
+        chk.undecided('stepper-call', 'own-arguments', node=sl, file=IH, func='get_stepper_loop', detail='generator not interpretable: %s' % e)
 
 
 def stage_calls(fn):
